@@ -320,7 +320,8 @@ func (r *Resolver) Resolve(ctx context.Context, name string) (ResolveResult, err
 		}
 		return result, nil
 	}
-	if len(name) > 255 {
+	// A domain name is at most 255 octets on the wire, i.e. 253 characters.
+	if len(strings.TrimSuffix(name, ".")) > 253 {
 		return result, ErrInvalidName
 	}
 	for _, p := range strings.Split(name, ".") {
@@ -354,7 +355,7 @@ func (r *Resolver) Resolve(ctx context.Context, name string) (ResolveResult, err
 	}
 
 	// The _port and _scheme labels are subject to the same limits.
-	if len(svcbName) > 255 {
+	if len(strings.TrimSuffix(svcbName, ".")) > 253 {
 		return result, ErrInvalidName
 	}
 	for _, p := range strings.Split(svcbName, ".") {
